@@ -269,7 +269,7 @@ def run(ctx):
     import vlib.lib  # noqa: F401  (import the library before forking)
     ctx.pmap(shard_country, [(cc, ctx.seed, ctx.tier, alphabet) for cc in o.countries()])
     ctx.pmap(shard_prefix, [(c, ctx.seed) for c in prefix_chars()])
-    ctx.hyp_explore(text_strategy(), hyp_body, ctx.pick(4000, 150000), name="C01-text")
+    ctx.hyp_parallel(text_strategy, hyp_body, ctx.pick(8000, 400000), name="C01-text")
     if not ctx.quick:
         from ..engines import fuzz
         fuzz.run_campaign(ctx.rec, "iban-c01", 120000, ctx.seed, ctx.prop)   # secondary engine: coverage-guided, oracle inside
